@@ -126,7 +126,7 @@ def program(spec: EnumSpec, pname, tier):
 
 def build(tier, seed):
     rng = mk_rng(seed, "C14")
-    specs = pivot() + random_specs(rng, 3 if tier == "quick" else 20)
+    specs = pivot() + random_specs(rng, 8 if tier == "quick" else 24)
     programs = [program(s, "p%03d" % i, tier) for i, s in enumerate(specs)]
     return {
         "programs": programs,
